@@ -175,7 +175,7 @@ def case(item):
     STATS.clear()
     run = make_run(cfg)
     try:
-        for p, probs, choices, _ in explore(run, max_deviations=bound, max_execs=cfg.get("cap")):
+        for p, probs, choices, _ in explore(run, policy=cfg.get("policy", "first"), max_deviations=bound, max_execs=cfg.get("cap")):
             res["n"] += 1
             if probs and len(res["problems"]) < 2:
                 res["problems"].append({"problems": probs, "choices": choices})
@@ -214,6 +214,13 @@ def main(tier, seed):
             for mid in ("alpha", "dp", "prg", "clear"):
                 for mode in ("run", "library"):
                     items.append((dict(n=2, history=[x, mid, x], mode=mode, cap=1500, outlier_prob=0.2), 2))
+    # the same X-change-X histories under the other default policies: "last" sends every semi-adapted draw
+    # down the new-clone branch, so the new-clone memo is asked twice for the same arguments
+    for x in ("pg:semi-adapted", "subtree:semi-adapted", "pg:fully-adapted", "pg:bootstrap"):
+        for mid in ("alpha", "clear", "dp"):
+            for pol in ("last", "unlikely", "likely"):
+                for n_ in (2, 3):
+                    items.append((dict(n=n_, history=[x, mid, x], mode="library", cap=400, policy=pol, outlier_prob=(0.2 if n_ == 2 else 0.0)), 1))
     hits_total = {}
     for r in pool_imap(case, items, chunksize=1):
         cfg, bound = r["item"]
@@ -239,6 +246,6 @@ def main(tier, seed):
 def replay(path):
     body = json.load(open(path))
     rp = body["replay"]
-    probs = make_run(rp["config"])(ScriptedRNG(rp["choices"]))
+    probs = make_run(rp["config"])(ScriptedRNG(rp["choices"], policy=rp["config"].get("policy", "first")))
     print(probs)
     return 1 if probs else 0
